@@ -31,7 +31,7 @@ __all__ = ["OFXTree", "TreeBuilder", "ParseError"]
 # stdlib imports
 import re
 import xml.etree.ElementTree as ET
-from typing import Tuple, Optional
+from typing import List, Tuple, Optional
 import logging
 
 
@@ -149,6 +149,42 @@ class TreeBuilder(ET.TreeBuilder):
         """,
         re.VERBOSE | re.DOTALL,
     )
+
+    def __init__(self, *args, **kwargs) -> None:
+        super().__init__(*args, **kwargs)
+        # Tags of the elements currently open, innermost last.  The C-accelerated
+        # ElementTree.TreeBuilder checks neither the tag passed to end() nor
+        # whether elements remain open in close(), so we keep track ourselves.
+        self._open: List[str] = []
+
+    def start(self, tag, attrs):
+        """
+        Open a new Element.  Overrides ElementTree.TreeBuilder.start().
+        """
+        elem = super().start(tag, attrs)
+        self._open.append(tag)
+        return elem
+
+    def end(self, tag):
+        """
+        Close the current Element, which must be the one named by the end tag.
+        Overrides ElementTree.TreeBuilder.end().
+        """
+        if not self._open:
+            raise ParseError(f"End tag </{tag}> without matching start tag")
+        if self._open[-1] != tag:
+            raise ParseError(f"End tag </{tag}> doesn't match open <{self._open[-1]}>")
+        self._open.pop()
+        return super().end(tag)
+
+    def close(self):
+        """
+        Return the root Element; all Elements must have been closed.
+        Overrides ElementTree.TreeBuilder.close().
+        """
+        if self._open:
+            raise ParseError(f"Missing end tag for <{self._open[-1]}>")
+        return super().close()
 
     def feed(self, data: str) -> None:
         """
